@@ -60,6 +60,14 @@ def numeric_kind(node, kinds):
     return None
 
 
+def _text_cond_feasible(term):
+    """a condition on a text that some texts satisfy and others do not: a test of the text against a non-empty constant"""
+    from sa.abseval import Sym
+    from sa.sveval import Res
+    return (isinstance(term, Res) and term.op in ("startswith", "endswith", "Eq", "NotEq", "In", "NotIn", "contains", "method:startswith", "method:endswith")
+            and sum(isinstance(a, Sym) and a.pytype == "str" for a in term.args) == 1 and all(isinstance(a, (Sym, str)) and a != "" for a in term.args))
+
+
 def check(src, rep):
     M = Model(src)
     ce = ConstEval(M)
@@ -224,6 +232,31 @@ def check(src, rep):
             rep.violation("R5", f"aidon.{fn.name}", "manufacturer", "the manufacturer field is not the constant 'Aidon'", file, fn.node.lineno, witness=repr(got.get(MAN)))
         else:
             rep.ok("R5", "manufacturer", "meter_manufacturer = 'Aidon'")
+    # text is verbatim under every name of the table: a list of one text element per code; conditions on the text itself are taken both ways
+    if not bad and res[0] == "value":
+        from sa.parsedworlds import run_valuations
+        n_txt = 0
+        for cdr_ in sorted(name_map):
+            if bad:
+                break
+            key = name_map[cdr_]
+            outs, trunc = run_valuations(A, fn, [body_of([AObj("Container", {"obis": code(cdr_), "content": TXT})])], limit=8, with_terms=True)
+            n_txt += 1
+            for taken, r, terms_ in outs:
+                if r[0] == "undecided" or (r[0] == "branch"):
+                    rep.undecide(f"R5 aidon.{fn.name} on a text element with C.D.E {cdr_}: {r[1]!r}")
+                    bad += 1
+                    break
+                if (r[0] == "raise" or not isinstance(r[1], dict) or r[1].get(key) != TXT):
+                    if taken and not all(_text_cond_feasible(t) for t in terms_):
+                        rep.undecide(f"R5 aidon.{fn.name} treats the text element {key!r} according to a condition whose feasibility is not decided here")
+                    else:
+                        rep.violation("R5", f"aidon.{fn.name}", "text-not-verbatim", f"the text element {key!r} (C.D.E {cdr_}) is not stored verbatim for every text: " +
+                                      (f"the normaliser raises {r[1]}" if r[0] == "raise" else f"stored {r[1].get(key) if isinstance(r[1], dict) else r[1]!r}"), file, fn.node.lineno,
+                                      witness=f"list with the single element {code(cdr_)} = text" + (f", condition outcomes {list(taken)}" if taken else ""))
+                    bad += 1
+                    break
+        rep.count("text_codes", n_txt)
     # no history: a second list of the same length with other codes, decoded by the same interpreter state, is keyed by its own codes
     if not bad and res[0] == "value":
         items2 = [AObj("Container", {"obis": c, "content": content}) for c, content in zip([code(known[2]), code(known[0]), "1.1.250.251.252.255", code(known[1]), "0.0.1.0.0.255"],
